@@ -682,6 +682,375 @@ pub fn exec(u: &Built, c: &Case) -> (Vec<u8>, Exec) {
 	(bytes, e)
 }
 
+
+// ---------------------------------------------------------------------------------------------
+// Second consumption mode: the iterator API and the borrowing API
+
+/// Owned observation target for `Reader::deserialize::<T>()` / `deserialize_next::<T>()`.
+struct AnyOwned(O);
+impl<'de> Deserialize<'de> for AnyOwned {
+	fn deserialize<D: serde::Deserializer<'de>>(d: D) -> Result<Self, D::Error> {
+		use serde::de::DeserializeSeed;
+		ObsSeed(&Hint::Any).deserialize(d).map(|o| AnyOwned(o.unborrowed()))
+	}
+}
+
+/// What one consumption through the iterator API showed.
+pub struct IterRun {
+	/// items yielded by `reader.deserialize::<T>()`, in order (a construction error is the single item)
+	pub items: Vec<Res>,
+	/// the iterator returned `None` within the horizon
+	pub ended: bool,
+	/// result of one further `deserialize_next` on the same reader after the iterator had ended
+	pub after: Option<Res>,
+}
+
+fn res_of(r: Result<Option<O>, serde_avro_fast::de::DeError>) -> Res {
+	match r {
+		Ok(Some(o)) => Res::Val(o),
+		Ok(None) => Res::None,
+		Err(e) => Res::Err { io: e.io_error().is_some(), ctor: false, msg: e.to_string() },
+	}
+}
+
+fn ctor_res(e: &FailedToInitializeReader) -> Res {
+	let io = match e {
+		FailedToInitializeReader::FailedToDeserializeHeader(d) => d.io_error().is_some(),
+		_ => false,
+	};
+	Res::Err { io, ctor: true, msg: e.to_string() }
+}
+
+fn drive_iter<'de, R>(ctor: impl FnOnce() -> Result<Reader<R>, FailedToInitializeReader>, horizon: usize) -> IterRun
+where
+	R: ARead + Take + BufRead + ReadSlice<'de>,
+	<R as Take>::Take: BufRead + ReadSlice<'de>,
+{
+	let mut run = IterRun { items: Vec::new(), ended: false, after: None };
+	let mut reader = match catch_unwind(AssertUnwindSafe(ctor)) {
+		Err(p) => {
+			run.items.push(Res::Panic(panic_message(p)));
+			return run;
+		}
+		Ok(Err(e)) => {
+			run.items.push(ctor_res(&e));
+			run.ended = true;
+			return run;
+		}
+		Ok(Ok(r)) => r,
+	};
+	let mut panicked = false;
+	{
+		let mut it = reader.deserialize::<AnyOwned>();
+		for _ in 0..horizon {
+			match catch_unwind(AssertUnwindSafe(|| it.next())) {
+				Err(p) => {
+					run.items.push(Res::Panic(panic_message(p)));
+					panicked = true;
+					break;
+				}
+				Ok(None) => {
+					run.ended = true;
+					break;
+				}
+				Ok(Some(item)) => run.items.push(res_of(item.map(|a| Some(a.0)))),
+			}
+		}
+	}
+	if panicked {
+		std::mem::forget(reader);
+		return run;
+	}
+	if run.ended {
+		match catch_unwind(AssertUnwindSafe(|| reader.deserialize_next::<AnyOwned>())) {
+			Err(p) => {
+				run.after = Some(Res::Panic(panic_message(p)));
+				std::mem::forget(reader);
+			}
+			Ok(r) => run.after = Some(res_of(r.map(|o| o.map(|a| a.0)))),
+		}
+	}
+	run
+}
+
+pub fn exec_iter_raw(bytes: &[u8], fail_at: Option<usize>, kind: usize, horizon: usize) -> IterRun {
+	if kind == 0 {
+		return drive_iter(|| Reader::from_slice(bytes), horizon);
+	}
+	let mut inner = ChunkedBufRead::uniform(bytes, KIND_CHUNK[kind]);
+	inner.fail_at_call = fail_at;
+	let counted = Counted { inner, calls: Rc::new(Cell::new(0)), fired: Rc::new(Cell::new(false)) };
+	drive_iter(
+		move || {
+			let mut rr = ReaderRead::new(counted);
+			rr.max_alloc_size = MAX_ALLOC;
+			Reader::new(rr)
+		},
+		horizon,
+	)
+}
+
+/// Same kind of result, same value, same I/O flag (messages are not compared).
+fn same_res(a: &Res, b: &Res) -> bool {
+	match (a, b) {
+		(Res::Val(x), Res::Val(y)) => x == y,
+		(Res::None, Res::None) => true,
+		(Res::Err { io: i, ctor: c, .. }, Res::Err { io: j, ctor: d, .. }) => i == j && c == d,
+		(Res::Panic(_), Res::Panic(_)) => true,
+		_ => false,
+	}
+}
+
+fn iter_horizon(e: &Exec, n_written: usize) -> usize {
+	match e.budget {
+		Budget::Calls(b) => b,
+		_ => n_written + 2 + CALLS_AFTER_STOP,
+	}
+}
+
+/// The iterator must show exactly what the `deserialize_next` loop shows up to its first end of
+/// stream, end there (within the horizon), and leave the reader where the loop would be.
+pub fn judge_iter(e: &Exec, it: &IterRun) -> Vec<(&'static str, String)> {
+	let mut out: Vec<(&'static str, String)> = Vec::new();
+	let seq = &e.seq;
+	let show = |v: &[Res]| rle(&v.iter().map(|r| r.short()).collect::<Vec<_>>());
+	if it.items.iter().any(|r| matches!(r, Res::Panic(_))) && !seq.iter().any(|r| matches!(r, Res::Panic(_))) {
+		out.push(("iterator-panic", format!("reader.deserialize::<T>() panicked; items: [{}]", show(&it.items))));
+		return out;
+	}
+	if matches!(seq.first(), Some(Res::Err { ctor: true, .. })) {
+		if !(it.items.len() == 1 && same_res(&it.items[0], &seq[0])) {
+			out.push(("iterator-differs-from-next-loop", format!("construction failed for the deserialize_next loop but the iterator run shows [{}]", show(&it.items))));
+		}
+		return out;
+	}
+	let first_none = seq.iter().position(|r| matches!(r, Res::None));
+	let expected: &[Res] = &seq[..first_none.unwrap_or(seq.len())];
+	let common = expected.len().min(it.items.len());
+	if let Some(i) = (0..common).find(|&i| !same_res(&expected[i], &it.items[i])) {
+		out.push(("iterator-differs-from-next-loop", format!("item {i} of reader.deserialize::<T>() is {}, call {i} of the deserialize_next loop on a fresh reader returned {}; iterator items: [{}]", it.items[i].short(), expected[i].short(), show(&it.items))));
+		return out;
+	}
+	if let Some(fnone) = first_none {
+		if it.items.len() < expected.len() {
+			out.push(("iterator-differs-from-next-loop", format!("reader.deserialize::<T>() ended after {} items, the deserialize_next loop returns {} at call {} before its first end of stream; iterator items: [{}]", it.items.len(), expected[it.items.len()].short(), it.items.len(), show(&it.items))));
+		} else if !it.ended || it.items.len() > expected.len() {
+			if matches!(e.budget, Budget::Calls(b) if fnone < b) {
+				out.push((
+					"iterator-does-not-end",
+					format!("reader.deserialize::<T>() yielded {} items without ending (horizon {}), the deserialize_next loop reports end of stream at call {fnone}; items from there on: [{}]", it.items.len(), iter_horizon(e, 0), show(&it.items[expected.len().min(it.items.len())..])),
+				));
+			}
+		} else if let (Some(after), Some(want)) = (&it.after, seq.get(fnone + 1)) {
+			if !same_res(after, want) {
+				out.push(("call-after-iterator-end-differs", format!("after the iterator had ended, deserialize_next returned {}, the deserialize_next loop returns {} at that point", after.short(), want.short())));
+			}
+		}
+	}
+	out
+}
+
+/// Borrowing targets for `deserialize_next_borrowed` / `deserialize_borrowed`.
+trait Borrowing<'a>: Deserialize<'a> {
+	fn obs(&self) -> O;
+	/// every borrowed string points into `input`
+	fn inside(&self, input: &[u8]) -> bool;
+	fn has_borrowed(&self) -> bool {
+		true
+	}
+}
+fn str_inside(s: &str, input: &[u8]) -> bool {
+	let (lo, hi) = (input.as_ptr() as usize, input.as_ptr() as usize + input.len());
+	let a = s.as_ptr() as usize;
+	s.is_empty() || (a >= lo && a + s.len() <= hi)
+}
+impl<'a> Borrowing<'a> for &'a str {
+	fn obs(&self) -> O {
+		O::str(self)
+	}
+	fn inside(&self, input: &[u8]) -> bool {
+		str_inside(self, input)
+	}
+}
+#[derive(Deserialize)]
+struct BRec<'a> {
+	a: i64,
+	#[serde(borrow)]
+	b: &'a str,
+}
+impl<'a> Borrowing<'a> for BRec<'a> {
+	fn obs(&self) -> O {
+		O::Map(vec![(O::str("a"), O::I64(self.a)), (O::str("b"), O::str(self.b))])
+	}
+	fn inside(&self, input: &[u8]) -> bool {
+		str_inside(self.b, input)
+	}
+}
+
+/// Schema-agnostic borrowing target (used when the damage touched the file header, where a typed
+/// target would no longer fit the schema the reader sees): `deserialize_any`, borrowed-ness recorded.
+struct AnyB {
+	o: O,
+	outside: bool,
+}
+fn any_borrowed(o: &O) -> bool {
+	match o {
+		O::Str(_, b) | O::Bytes(_, b) => *b,
+		O::Some(x) | O::Newtype(x) => any_borrowed(x),
+		O::Seq(v) => v.iter().any(any_borrowed),
+		O::Map(v) => v.iter().any(|(k, x)| any_borrowed(k) || any_borrowed(x)),
+		O::Enum(a, b) => any_borrowed(a) || any_borrowed(b),
+		_ => false,
+	}
+}
+impl<'a> Deserialize<'a> for AnyB {
+	fn deserialize<D: serde::Deserializer<'a>>(d: D) -> Result<Self, D::Error> {
+		use serde::de::DeserializeSeed;
+		// `borrow_run` has declared the input range: the observation visitor checks every borrowed delivery
+		let o = ObsSeed(&Hint::Any).deserialize(d)?;
+		Ok(AnyB { o, outside: crate::obs::borrowed_outside_input() })
+	}
+}
+impl<'a> Borrowing<'a> for AnyB {
+	fn obs(&self) -> O {
+		self.o.unborrowed()
+	}
+	fn inside(&self, _input: &[u8]) -> bool {
+		!self.outside
+	}
+	fn has_borrowed(&self) -> bool {
+		any_borrowed(&self.o)
+	}
+}
+
+pub struct BorrowRun {
+	/// results of successive `deserialize_next_borrowed` calls
+	pub next: Vec<Res>,
+	/// items of `deserialize_borrowed()` and whether it ended
+	pub iter: Vec<Res>,
+	pub iter_ended: bool,
+	/// borrowed values delivered / of those, pointing outside the input
+	pub borrowed_values: usize,
+	pub outside: Vec<String>,
+}
+
+fn borrow_run<'a, T: Borrowing<'a>>(bytes: &'a [u8], n_calls: usize, horizon: usize) -> BorrowRun {
+	let mut run = BorrowRun { next: Vec::new(), iter: Vec::new(), iter_ended: false, borrowed_values: 0, outside: Vec::new() };
+	crate::obs::set_input_range(bytes);
+	let note = |run: &mut BorrowRun, t: &T| {
+		if t.has_borrowed() {
+			run.borrowed_values += 1;
+		}
+		if !t.inside(bytes) {
+			run.outside.push(show_o(&t.obs()));
+		}
+	};
+	// the call loop
+	match catch_unwind(AssertUnwindSafe(|| Reader::from_slice(bytes))) {
+		Err(p) => run.next.push(Res::Panic(panic_message(p))),
+		Ok(Err(e)) => run.next.push(ctor_res(&e)),
+		Ok(Ok(mut reader)) => {
+			for _ in 0..n_calls {
+				match catch_unwind(AssertUnwindSafe(|| reader.deserialize_next_borrowed::<T>())) {
+					Err(p) => {
+						run.next.push(Res::Panic(panic_message(p)));
+						std::mem::forget(reader);
+						break;
+					}
+					Ok(r) => {
+						if let Ok(Some(t)) = &r {
+							note(&mut run, t);
+						}
+						run.next.push(res_of(r.map(|o| o.map(|t| t.obs()))));
+					}
+				}
+			}
+		}
+	}
+	// the iterator
+	match catch_unwind(AssertUnwindSafe(|| Reader::from_slice(bytes))) {
+		Err(p) => run.iter.push(Res::Panic(panic_message(p))),
+		Ok(Err(e)) => {
+			run.iter.push(ctor_res(&e));
+			run.iter_ended = true;
+		}
+		Ok(Ok(mut reader)) => {
+			let mut panicked = false;
+			{
+				let mut it = reader.deserialize_borrowed::<T>();
+				for _ in 0..horizon {
+					match catch_unwind(AssertUnwindSafe(|| it.next())) {
+						Err(p) => {
+							run.iter.push(Res::Panic(panic_message(p)));
+							panicked = true;
+							break;
+						}
+						Ok(None) => {
+							run.iter_ended = true;
+							break;
+						}
+						Ok(Some(item)) => {
+							if let Ok(t) = &item {
+								note(&mut run, t);
+							}
+							run.iter.push(res_of(item.map(|t| Some(t.obs()))));
+						}
+					}
+				}
+			}
+			if panicked {
+				std::mem::forget(reader);
+			}
+		}
+	}
+	crate::obs::clear_input_range();
+	run
+}
+
+/// Borrowing API on the slice reader of an uncompressed file: same results as the owned call loop,
+/// every borrowed value inside the input.
+pub fn judge_borrow(e: &Exec, b: &BorrowRun) -> Vec<(&'static str, String)> {
+	let mut out: Vec<(&'static str, String)> = Vec::new();
+	let seq = &e.seq;
+	let show = |v: &[Res]| rle(&v.iter().map(|r| r.short()).collect::<Vec<_>>());
+	if !b.outside.is_empty() {
+		out.push(("borrowed-value-outside-input", format!("borrowed value(s) {} do not point into the file slice", b.outside.join(", "))));
+	}
+	let n = seq.len().min(b.next.len());
+	if b.next.len() != seq.len() || (0..n).any(|i| !same_res(&seq[i], &b.next[i])) {
+		out.push(("borrowed-differs-from-next-loop", format!("successive deserialize_next_borrowed calls returned [{}], deserialize_next on a fresh reader returns [{}]", show(&b.next), show(seq))));
+	}
+	if !matches!(seq.first(), Some(Res::Err { ctor: true, .. })) {
+		let first_none = seq.iter().position(|r| matches!(r, Res::None));
+		let expected: &[Res] = &seq[..first_none.unwrap_or(seq.len())];
+		let n = expected.len().min(b.iter.len());
+		let differs = (0..n).any(|i| !same_res(&expected[i], &b.iter[i]));
+		let wrong_end = first_none.is_some() && (b.iter.len() != expected.len() || !b.iter_ended);
+		if differs || wrong_end {
+			out.push(("borrowed-differs-from-next-loop", format!("deserialize_borrowed() yielded [{}]{}, the deserialize_next loop returns [{}] before its first end of stream", show(&b.iter), if b.iter_ended { " and ended" } else { " without ending" }, show(expected))));
+		}
+	}
+	out
+}
+
+/// Does the borrowing mode apply to this case?  (slice reader, null codec, a schema with a string)
+fn borrow_applies(u: &Built, c: &Case) -> bool {
+	c.kind() == 0 && CODECS[u.desc.codec] == "null" && (u.desc.schema == 1 || u.desc.schema == 2)
+}
+
+fn exec_borrow(u: &Built, bytes: &[u8], e: &Exec) -> BorrowRun {
+	let horizon = iter_horizon(e, u.written.len());
+	// typed targets only while the header (hence the schema the reader sees) is the written one
+	let header_intact = bytes.len() >= u.header_end && bytes[..u.header_end] == u.bytes[..u.header_end];
+	if !header_intact {
+		borrow_run::<AnyB>(bytes, e.seq.len(), horizon)
+	} else if u.desc.schema == 1 {
+		borrow_run::<&str>(bytes, e.seq.len(), horizon)
+	} else {
+		borrow_run::<BRec>(bytes, e.seq.len(), horizon)
+	}
+}
+
 // ---------------------------------------------------------------------------------------------
 // Oracle
 
@@ -886,8 +1255,16 @@ fn replay_token(u: &Built, c: &Case) -> serde_json::Value {
 }
 
 fn run_case(u: &Built, c: &Case) -> CaseOutcome {
-	let (bytes, e) = exec(u, c);
+	let (bytes, fail_at) = apply(u, c);
+	let e = exec_raw(&bytes, fail_at, c.kind(), u.written.len());
 	let mut vs = judge(u, c, &e);
+	// second consumption mode: the iterator API (all cases), the borrowing API (slice, null codec, string schemas)
+	let it = exec_iter_raw(&bytes, fail_at, c.kind(), iter_horizon(&e, u.written.len()));
+	vs.extend(judge_iter(&e, &it));
+	let br = if borrow_applies(u, c) { Some(exec_borrow(u, &bytes, &e)) } else { None };
+	if let Some(b) = &br {
+		vs.extend(judge_borrow(&e, b));
+	}
 	let mut violations = Vec::new();
 	if !vs.is_empty() {
 		// determinism guard: the same case must give the same results again
@@ -997,6 +1374,32 @@ fn run_case(u: &Built, c: &Case) -> CaseOutcome {
 		Budget::Huge => counters.push("progress_no_verdict_huge_declared_count"),
 		Budget::Unreadable => counters.push(if ctor_ok { "progress_no_verdict_header_unreadable_but_reader_constructed" } else { "progress_no_verdict_header_unreadable(reader construction failed too)" }),
 	}
+	{
+		let vals = it.items.iter().filter(|r| matches!(r, Res::Val(_))).count();
+		let first_err = it.items.iter().position(|r| matches!(r, Res::Err { ctor: false, .. }));
+		counters.push("iter_mode_cases");
+		if it.ended && vals > 0 && first_err == Some(it.items.len() - 1) {
+			counters.push("iter_values_then_one_error_then_end");
+		}
+		if first_err.map_or(false, |i| i + 1 < it.items.len()) {
+			counters.push("iter_continued_after_a_recoverable_error");
+		}
+		if it.ended && matches!(it.after, Some(Res::None)) {
+			counters.push("iter_ended_then_next_reports_end_of_stream");
+		}
+		if it.ended && matches!(it.after, Some(Res::Err { .. })) {
+			counters.push("iter_ended_then_next_reports_an_error(as the call loop does)");
+		}
+	}
+	if let Some(b) = &br {
+		counters.push("borrow_mode_cases");
+		if b.borrowed_values > 0 {
+			counters.push("borrow_cases_with_borrowed_values_inside_the_input");
+		}
+		if b.next.iter().any(|r| matches!(r, Res::Val(_))) && b.next.iter().any(|r| matches!(r, Res::Err { ctor: false, .. })) {
+			counters.push("borrow_values_then_error");
+		}
+	}
 	// runs longer than 8 are folded to "x+" so that the shape table stays small
 	let letters: String = {
 		let raw: Vec<char> = seq.iter().map(|r| r.letter()).collect();
@@ -1023,7 +1426,7 @@ fn run_case(u: &Built, c: &Case) -> CaseOutcome {
 	let mut counters: Vec<String> = counters.into_iter().map(|s| s.to_owned()).collect();
 	counters.extend(dyn_counters);
 	let shape = format!("{class}:{letters}");
-	CaseOutcome { violations, nontrivial, outcome: hash64(&(class, &letters)), next_calls: seq.len() as u64, shape, counters, sample }
+	CaseOutcome { violations, nontrivial, outcome: hash64(&(class, &letters)), next_calls: (seq.len() + it.items.len() + br.as_ref().map_or(0, |b| b.next.len() + b.iter.len())) as u64, shape, counters, sample }
 }
 
 /// `vcheck worker C17 <tier> <unit> <part> <parts> <from> <to|-> <progress file>`
@@ -1070,7 +1473,7 @@ pub fn worker(args: &[String]) -> i32 {
 		TICK.fetch_add(1, Ordering::SeqCst);
 		let r = run_case(&u, c);
 		out.evaluations += 1;
-		out.impl_runs += 1;
+		out.impl_runs += 2 + if borrow_applies(&u, c) { 2 } else { 0 };
 		out.states += 1 + r.next_calls;
 		out.transitions += r.next_calls;
 		if r.nontrivial {
@@ -1332,7 +1735,7 @@ pub fn run(rep: &mut Report) {
 		}
 	}
 	rep.rule = format!(
-		"Fault enumeration: {} valid container files (6 codecs x schemas long/string/record{{a:long,b:string}}, 1-3 blocks of {} datums, pairwise distinct values; plus null-schema files for the no-panic part; written by the crate's Writer with pinned sync marker, plus files with empty blocks written by vmodel::cf_write; each cross-checked with vmodel::cf_parse; {}..{} bytes) x [truncation at every offset 0..=len] x [single-byte corruption at every offset with {}] x [I/O error at every read-call index, reader kinds only]{} x [framing damage located by the model: header sync / block sync bytes {}, declared size +-1, declared count +-1, snappy CRC bytes] x reader kind {{slice, ChunkedBufRead 1-byte chunks, ChunkedBufRead whole buffer{}}}; every case = one damaged file on the real Reader, called until end of stream has been reported (+5 calls) but at most B+{} times, B = sum of the declared object counts + blocks + 8 from a lenient model walk over the damaged file's block framing (n+8 calls when a declared count exceeds 10000 or the header cannot be walked: no progress verdict, counted), in a worker subprocess with a {} s per-case horizon. Oracle: never a panic/hang; progress (all classes): Ok(None) is reported within B calls also when the caller keeps calling after errors; truncation and read errors: the Ok(Some) results are exactly a prefix of the written values and none follows the first Err/None; the error reported for a truncated file is followed only by Ok(None); an Err carrying an I/O error is followed only by Ok(None); an injected read error is reported by exactly one call and then Ok(None); model-located sync/size/count/CRC damage yields an Err before end of stream (sync: then only Ok(None)); corruption: no panic, no hang, I/O-error-then-EOS. An early Err on an undamaged deflate/bzip2/xz file through a small-refill reader (D14) is not judged here. states = cases + deserialize_next results, transitions = deserialize_next results. Non-trivial = damaged case in which the Reader was constructed and then reported an error, ended early or returned a changed value; distinct on (file, damage, reader kind).",
+		"Fault enumeration: {} valid container files (6 codecs x schemas long/string/record{{a:long,b:string}}, 1-3 blocks of {} datums, pairwise distinct values; plus null-schema files for the no-panic part; written by the crate's Writer with pinned sync marker, plus files with empty blocks written by vmodel::cf_write; each cross-checked with vmodel::cf_parse; {}..{} bytes) x [truncation at every offset 0..=len] x [single-byte corruption at every offset with {}] x [I/O error at every read-call index, reader kinds only]{} x [framing damage located by the model: header sync / block sync bytes {}, declared size +-1, declared count +-1, snappy CRC bytes] x reader kind {{slice, ChunkedBufRead 1-byte chunks, ChunkedBufRead whole buffer{}}}; every case = one damaged file on the real Reader, called until end of stream has been reported (+5 calls) but at most B+{} times, B = sum of the declared object counts + blocks + 8 from a lenient model walk over the damaged file's block framing (n+8 calls when a declared count exceeds 10000 or the header cannot be walked: no progress verdict, counted), in a worker subprocess with a {} s per-case horizon. Every case is consumed a second time through the iterator API on a fresh reader over the same bytes and faults: reader.deserialize::<T>() taken for at most B items must yield, item by item (kind, value, I/O flag), what the deserialize_next loop returns before its first Ok(None), end exactly there, and one further deserialize_next must return what the loop returns next; on the slice reader of null-codec files with a string in the schema also deserialize_next_borrowed::<&str / struct with &str>() (a schema-agnostic borrowing observer when the damage touched the header) call by call and deserialize_borrowed() as iterator: same results as the owned loop, every borrowed value pointing into the file slice. Oracle: never a panic/hang; progress (all classes): Ok(None) is reported within B calls also when the caller keeps calling after errors; truncation and read errors: the Ok(Some) results are exactly a prefix of the written values and none follows the first Err/None; the error reported for a truncated file is followed only by Ok(None); an Err carrying an I/O error is followed only by Ok(None); an injected read error is reported by exactly one call and then Ok(None); model-located sync/size/count/CRC damage yields an Err before end of stream (sync: then only Ok(None)); corruption: no panic, no hang, I/O-error-then-EOS. An early Err on an undamaged deflate/bzip2/xz file through a small-refill reader (D14) is not judged here. states = cases + deserialize_next results, transitions = deserialize_next results. Non-trivial = damaged case in which the Reader was constructed and then reported an error, ended early or returned a changed value; distinct on (file, damage, reader kind).",
 		descs.len(),
 		if thorough { "1, 2 or 4 (all 39 layouts, plus [3] and [1,2,1])" } else { "1, 2 or 4 (all 12 layouts of <= 2 blocks, plus [3], [2,1] and [1,2,1])" },
 		sizes.iter().min().unwrap(),
@@ -1390,6 +1793,13 @@ pub fn run(rep: &mut Report) {
 		"progress_judged",
 		"progress_eos_reached_after_several_errors",
 		"progress_no_verdict_huge_declared_count",
+		"iter_mode_cases",
+		"iter_values_then_one_error_then_end",
+		"iter_continued_after_a_recoverable_error",
+		"iter_ended_then_next_reports_end_of_stream",
+		"borrow_mode_cases",
+		"borrow_cases_with_borrowed_values_inside_the_input",
+		"borrow_values_then_error",
 	];
 	// (a run that already has an unlisted violation is decided by that violation, not by the guards)
 	let known = crate::report::load_known();
@@ -1429,10 +1839,20 @@ pub fn replay(v: &serde_json::Value) -> i32 {
 	CUR.store(0, Ordering::SeqCst);
 	TICK.fetch_add(1, Ordering::SeqCst);
 	start_watchdog(1);
-	let (bytes, e) = exec(&u, &case);
+	let (bytes, fail_at) = apply(&u, &case);
+	let e = exec_raw(&bytes, fail_at, case.kind(), u.written.len());
+	let it = exec_iter_raw(&bytes, fail_at, case.kind(), iter_horizon(&e, u.written.len()));
+	let br = if borrow_applies(&u, &case) { Some(exec_borrow(&u, &bytes, &e)) } else { None };
 	DONE.store(true, Ordering::SeqCst);
 	println!("{}", describe(&u, &case, &bytes, &e));
-	let vs = judge(&u, &case, &e);
+	let show = |v: &[Res]| rle(&v.iter().map(|r| r.short()).collect::<Vec<_>>());
+	println!("  reader.deserialize::<T>() on a fresh reader: [{}]{}; then deserialize_next: {}", show(&it.items), if it.ended { ", ended" } else { ", did not end within the horizon" }, it.after.as_ref().map(|r| r.short()).unwrap_or_else(|| "-".into()));
+	let mut vs = judge(&u, &case, &e);
+	vs.extend(judge_iter(&e, &it));
+	if let Some(b) = &br {
+		println!("  deserialize_next_borrowed calls: [{}]; deserialize_borrowed(): [{}]{}; {} borrowed values, {} outside the input", show(&b.next), show(&b.iter), if b.iter_ended { ", ended" } else { ", did not end" }, b.borrowed_values, b.outside.len());
+		vs.extend(judge_borrow(&e, b));
+	}
 	for (class, why) in &vs {
 		println!("  [{class}] {why}");
 	}
